@@ -22,7 +22,7 @@ Descriptor grammar (lists, JSON-able)::
     ["cmp", kind, [d1, d2, ...]]      compound expression (see _COMPOUND)
     ["inst", qual, {field: d}]        instance of an @unevaluated class (keyword call)
     ["new", qual, [d1, d2, ...]]      instance of a helper class (positional call)
-    ["tuple", [d...]], ["slice", a, b, c], ["pyint", n], ["pynone"]   python-level values
+    ["tuple", [d...]], ["slice", a, b, c], ["pyint", n], ["pyfloat", x], ["pynone"]   python-level values
     ["none"], ["str", s], ["obj", module, qualname]                   non-SymPy attributes
 """
 
@@ -256,6 +256,7 @@ _COMPOUND = {
     "add": lambda a, b: a + b,
     "sqr": lambda a: a**2,
     "div": lambda a, b: a / b,
+    "dif": lambda a, b: a / 4 - b**2,
 }
 
 
@@ -288,6 +289,8 @@ def build(desc):
         return slice(*[None if v is None else v for v in desc[1:4]])
     if tag == "pyint":
         return int(desc[1])
+    if tag == "pyfloat":
+        return float(desc[1])
     if tag in {"pynone", "none"}:
         return None
     if tag == "str":
@@ -328,6 +331,25 @@ def leaves(desc, depth: int = 0, out=None):
     return out
 
 
+def bound_leaves(desc, out=None):
+    """Descriptors of the bound variables of a shape."""
+    if out is None:
+        out = []
+    tag = desc[0]
+    if tag == "bound":
+        out.append(list(desc))
+    elif tag in {"cmp", "new"}:
+        for d in desc[2]:
+            bound_leaves(d, out)
+    elif tag == "inst":
+        for d in desc[2].values():
+            bound_leaves(d, out)
+    elif tag == "tuple":
+        for d in desc[1]:
+            bound_leaves(d, out)
+    return out
+
+
 def describe(desc) -> str:
     tag = desc[0]
     if tag in {"sym", "bound"}:
@@ -335,7 +357,7 @@ def describe(desc) -> str:
         return f"{desc[1]}" + (f"[{a}]" if a else "")
     if tag in {"arr", "arrs"}:
         return desc[1]
-    if tag in {"num", "int", "pyint", "str"}:
+    if tag in {"num", "int", "pyint", "pyfloat", "str"}:
         return str(desc[1])
     if tag == "cmp":
         return f"{desc[1]}({', '.join(describe(d) for d in desc[2])})"
@@ -675,6 +697,13 @@ def plain_shapes(qual: str, tier: str) -> list:
                            T(I_, T(["int", 1], ["int", 2]))]],
             ["new", qual, [["cmp", "mul", [inst("Energy", momentum=P0), ["cmp", "powb", [X, I_]]]],
                            T(I_, T(["int", 1], ["int", 2]))]],
+            # pool written with Python floats (stored as sympy Floats)
+            ["new", qual, [["cmp", "mul", [inst("Kallen", x=X, y=I_, z=Z), Y]],
+                           T(I_, T(["pyfloat", -0.5], ["pyfloat", 0.5]))]],
+            # symbolic pool values (a map may make them coincide: the sum keeps both terms)
+            ["new", qual, [inst("Kallen", x=Z, y=I_, z=SYM("w")), T(I_, T(X, Y))]],
+            ["new", qual, [["cmp", "mul", [inst("Kallen", x=Z, y=I_, z=J_), Z]],
+                           T(I_, T(X, Y, ["int", 1])), T(J_, T(Y, SYM("w")))]],
         ]
     if name == "ArraySum":
         return [new(name, P0, P1), new(name, P0, inst("NegativeMomentum", momentum=P1)), new(name, P0, P1, P2)]
@@ -697,6 +726,9 @@ def plain_shapes(qual: str, tier: str) -> list:
             new(name, P0, T(ALL, ["slice", 1, None, None])),
             new(name, inst("NegativeMomentum", momentum=P0), T(ALL, ["pyint", 2])),
             new(name, new("ArraySum", P0, P1), T(ALL, ["pyint", 3])),
+            # parent with a concrete shape: slices are normalised against the axis sizes
+            new(name, ["arrs", "A", [N_EVENTS, 4]], T(ALL, ["pyint", 1])),
+            new(name, ["arrs", "A", [N_EVENTS, 4]], T(ALL, ["slice", 1, None, None])),
         ]
     if name == "ArrayElement":
         return [
@@ -712,7 +744,11 @@ def plain_shapes(qual: str, tier: str) -> list:
         ]
     if name == "ComplexSqrt":
         f = FieldInfo("x", True, False, "Any", "scalar")
-        return [["new", qual, [v]] for v in alphabet(f, 0, tier)]
+        # + arguments that print as a sum and change sign over the lattice (s/4 - m**2)
+        return [["new", qual, [v]] for v in alphabet(f, 0, tier)] + [
+            ["new", qual, [["cmp", "dif", [SYM("s"), SYM("m")]]]],
+            ["new", qual, [["cmp", "dif", [X, Y]]]],
+        ]
     if name == "UnevaluatableIntegral":
         B = ["bound", "t", {}]
         return [
